@@ -193,10 +193,11 @@ def cases(shard, nshards, seed, tier):
     from vmon import gen3d
 
     for fn in [f for f in gen3d.corpus_files() if f.endswith(("488d.pdb", "4WTI_1_T-P.cif", "1DFU_1_M-N.cif", "1JJP.cif", "1ehz-assembly-1.cif", "4qln.cif", "1E7K_1_C.cif"))]:
-        for k, ops in enumerate(([], [], [{"op": "split-chain", "tail": 3}], [{"op": "chain-order", "seed": "c01", "mode": "reverse"}], [{"op": "reverse-res"}], [{"op": "icodes", "seed": "c01", "frac": 0.6}],
-                                 [{"op": "thin-res", "seed": "c01", "frac": 0.15}])):
+        for variant, ops in enumerate(([], [], [{"op": "split-chain", "tail": 3}], [{"op": "chain-order", "seed": "c01", "mode": "reverse"}], [{"op": "reverse-res"}], [{"op": "icodes", "seed": "c01", "frac": 0.6}],
+                                 [{"op": "thin-res", "seed": "c01", "frac": 0.15}], [], [{"op": "thin-res", "seed": "c01b", "frac": 0.2}, {"op": "reverse-res"}])):
+            # (the last one with gap detection: residues missing from a chain whose numbers run DOWN the list)
             if mine():
-                yield {"family": "from-3d", "file": fn, "ops": ops, "gaps": k % 2 == 0}
+                yield {"family": "from-3d", "file": fn, "ops": ops, "gaps": variant % 2 == 0}
     nms = 200 if tier == "quick" else 3000
     for i in range(nms):
         if not mine():
@@ -299,14 +300,27 @@ def run_case(case, rec):
                 parts.append(hdr)
             parts += [seq, st]
         text = "\n".join(parts) + "\n"
-        _cur["ms_expect"] = ([s[1] for s in case["strands"]], [s[2] for s in case["strands"]])
+        texts = [text]
+        if int(core.chash(case)[:2], 16) % 3 == 0:
+            # structure lines followed by blanks or a tab, and no newline after the last line
+            nhdr = [i for i, p_ in enumerate(parts)]
+            st_lines = set()
+            k = 0
+            for hdr, seq, st in case["strands"]:
+                k += (1 if hdr else 0) + 2
+                st_lines.add(k - 1)
+            texts.append("\n".join(p_ + ("  " if i in st_lines and i % 2 else "\t" if i in st_lines else "") for i, p_ in enumerate(parts)) + "\n")
+            texts.append("\n".join(parts))
+            rec.count("note:multistrand-text-variants")
         rec.mark_nontrivial(any(set(s[2]) - {"."} for s in case["strands"]))
-        try:
-            common.MultiStrandDotBracket.from_string(text)
-        except Exception:
-            pass
-        finally:
-            _cur["ms_expect"] = None
+        for tv in texts:
+            _cur["ms_expect"] = ([s[1] for s in case["strands"]], [s[2] for s in case["strands"]])
+            try:
+                common.MultiStrandDotBracket.from_string(tv)
+            except Exception:
+                pass
+            finally:
+                _cur["ms_expect"] = None
         return
     if fam == "from-3d":
         return _from_3d(case, rec)
